@@ -7,10 +7,10 @@ import (
 
 func init() {
 	props["C11"] = &propCheck{
-		lean:    []string{"JSight.Props.C11", "JSight.Props.C07", "JSight.Props.C13"},
-		exes:    []string{},
+		lean:    []string{"JSight.Props.C11", "JSight.Props.C04_Build", "JSight.Props.C07", "JSight.Props.C13", "JSight.Props.C13_Bind", "JSight.Props.C19_Build"},
+		exes:    []string{"jsight-build"},
 		run:     runC11,
-		assume:  []string{"the registry theorems are name-level (one collection key per declaration); references inside schema bodies are resolved by the schema library (oracle)"},
+		assume:  []string{"references inside schema bodies (undefined type / enum) are resolved by the schema library (oracle); duplicates, second singletons, missing required parameters and undeclared tags are theorems of the catalog model (C04_Build group B), macro faults of C07, path-parameter faults of C13/C13_Bind"},
 		rule:    "generated accepted documents x fault kinds (duplicate type/enum/server/tag/macro, same method on the same path, same URL path, paths differing only in a parameter name, second singleton child, missing required parameter, undefined type/enum/macro/tag) x every position where the fault can be injected; non-trivial = the fault is injected >= 1 directive away from the start; distinct = distinct faulty document",
 		trusted: []string{"the harness-side renderer and the line-level fault injectors"},
 	}
@@ -149,6 +149,7 @@ func injectFaults(lines []string, r *Rng) []fault {
 
 func runC11(ctx *Ctx) {
 	r := ctx.Rng.Fork()
+	buildCorrSuite(ctx, r.Fork(), ctx.Budget(300, 20000))
 	regCorrespondence(ctx, r, ctx.Budget(3000, 100000))
 	n := ctx.Budget(150, 8000)
 	for i := 0; i < n && len(ctx.Violations) < 15; i++ {
